@@ -14,3 +14,13 @@ def register(claim):
           "Trusts that a brand-new object computed once is the reference (the computer itself is not judged); "
           "interrupts land between Python lines of package code only.",
           "DESIGN.md section 5, C08")
+    claim("C20", "fault_enumeration",
+          f"{SIM}: storage seam (SimFS) over a real scratch directory; every raw I/O event of a save x "
+          "{kill-before, kill-after, kill after j bytes, KeyboardInterrupt} enumerated per seeded file history",
+          "For each seeded history of earlier saves and buffering configuration, the crash point inside one save "
+          "is enumerated exhaustively at raw-I/O-event granularity (plus byte offsets inside writes), and the "
+          "directory is judged by a restarted reader: data.json parses and equals the previous or the complete "
+          "new content, earlier runs are all present, the next save succeeds. Histories and sizes are sampled.",
+          "Process-death durability (what the kernel was handed survives); power-loss reordering and fsync are not "
+          "modelled. Python's own buffered/text layers are real; only the raw layer and os.* calls are the seam.",
+          "DESIGN.md section 5, C20")
